@@ -42,6 +42,22 @@ CLAIMED.update({
                 technique='Coq proof (algebraic lemmas, refutation witnesses by vm_compute) + step-wise correspondence', design='DESIGN.md §5 C12'),
 })
 
+MAT = ('DefaultBarMatcher.match, the deal-price deciders and the three slippage models are modelled in Model/Matcher.v, the per-order life inside '
+       'SimulationBroker in Model/Order.v; theorems closed under the global context; every recorded matcher call (harness proxy around '
+       'matcher.match) and every order\'s whole event stream of real back-tests is replayed through the model inside coqc; monitors written from the '
+       'property text give the replay.')
+CLAIMED.update({
+    'C04': dict(text='Per-order lifecycle machine: for every input sequence the events follow the protocol automaton, statuses move along legal edges, fill '
+                     'bookkeeping equals the announced trades, finals are absorbing, nothing stays in the open list after the close (induction over inputs); ' + MAT,
+                technique='Coq proof (simulation of a protocol automaton, induction over inputs) + per-order correspondence', design='DESIGN.md §5 C04'),
+    'C05': dict(text='Inversion theorem of match_one: a fill implies a valid reference of the configured rule, price = reference moved adversely by the slippage model, '
+                     'inside the band, limit respected, zero slippage => price = reference; ' + MAT,
+                technique='Coq proof (case analysis / inversion of the matcher model) + per-call correspondence', design='DESIGN.md §5 C05'),
+    'C06': dict(text='Theorems: no fill at limit-up/down or without volume, fill positive / within remainder / whole lots or whole remainder, accumulated turnover within '
+                     'round(volume x percent), market remainder cancelled, limit remainder rests; ' + MAT,
+                technique='Coq proof (inversion of the matcher model, floor arithmetic) + per-call correspondence', design='DESIGN.md §5 C06'),
+})
+
 ALL = ['C%02d' % i for i in range(1, 21)]
 
 
